@@ -186,7 +186,7 @@ for _s in (Domain_get_dr, Domain_get_dk, Domain_get_length):
 
 # --------------------------------------------------------------------------- transforms
 
-@contract('pyPRISM/core/Domain.py::Domain.to_fourier', props=['C07', 'C08'])
+@contract('pyPRISM/core/Domain.py::Domain.to_fourier', props=['C07', 'C08', 'C02'])
 def Domain_to_fourier(self, array):
     N = self._length
     dr = self._dr
@@ -196,7 +196,7 @@ def Domain_to_fourier(self, array):
     return pointwise(N, lambda j: y[j] / ((j + 1) * dk))
 
 
-@contract('pyPRISM/core/Domain.py::Domain.to_real', props=['C07', 'C08'])
+@contract('pyPRISM/core/Domain.py::Domain.to_real', props=['C07', 'C08', 'C02'])
 def Domain_to_real(self, array):
     N = self._length
     dr = self._dr
